@@ -259,6 +259,8 @@ def _norm_index(self):
 def fn_key(self, name, allow_many=False):
     """Resolve a table name like `WalCleaner::cleanup_up_to` (generic args stripped, `::`-boundary
     suffix match over lib bodies) to the body key. Fails closed when absent or ambiguous."""
+    if name in self.idx:
+        return name
     ni = _norm_index(self)
     if name in ni and len(ni[name]) == 1:
         return ni[name][0]
@@ -273,6 +275,20 @@ def fn_key(self, name, allow_many=False):
     return hits if allow_many else hits[0]
 
 
+def method_key(self, self_ty, trait, name):
+    """body key of `impl <trait> for <self_ty> { fn name }` (type/trait given by their last path segments)"""
+    rx = re.compile(r"^<(.*::)?%s as (.*::)?%s>::%s$" % (re.escape(self_ty), re.escape(trait), re.escape(name)))
+    hits = [k for nk, ks in _norm_index(self).items() if rx.match(nk) for k in ks if not k.startswith("bin:")]
+    if len(hits) != 1:
+        raise AnchorMissing("impl %s for %s :: %s -> %d bodies" % (trait, self_ty, name, len(hits)))
+    return hits[0]
+
+
+def get_method(self, self_ty, trait, name):
+    k = method_key(self, self_ty, trait, name)
+    return get_body(self, k)
+
+
 def get_body(self, name):
     """Body for a table name; for an `async fn` returns the coroutine body (`::{closure#0}`)."""
     k = fn_key(self, name)
@@ -285,6 +301,15 @@ def get_body(self, name):
     if k not in bc:
         bc[k] = Body(self.body(k))
     b = bc[k]
+    # #[async_trait]: the method only boxes `async move { body }`
+    inner = k + "::{closure#0}"
+    if not inf.get("async") and inner in self.idx and b.n <= 12 and any(
+            v["r"] == "agg" and v.get("ak") == "coroutine" and v.get("def") == inner
+            for blk in b.blocks for st in blk["s"] if "v" in st for v in [st["v"]]):
+        if inner not in bc:
+            bc[inner] = Body(self.body(inner))
+        b = bc[inner]
+        k = inner
     # #[tracing::instrument] wraps the real body in one more coroutine/closure
     inner = k + "::{closure#0}"
     if inner in self.idx and any("Instrument" in (c.name or "") and c.name.endswith("::instrument") for c in b.calls):
@@ -305,4 +330,6 @@ def get_body_exact(self, k):
 
 Facts.fn_key = fn_key
 Facts.fn = get_body
+Facts.method = get_method
+Facts.method_key = method_key
 Facts.fn_exact = get_body_exact
